@@ -745,3 +745,69 @@ if tier(False, True):
                                   ['0 <= k1 < %d' % (_hi - _lo), '0 <= k2 < %d' % len(VALPHA), '0 <= k3 < %d' % len(VALPHA)], timeout=1500, path_timeout=30,
                                   data='3 characters of a quoted attribute value', selectors='context %r ... %r; first symbol in atoms [%d,%d)' % (VALUE_CTX[_c][0], VALUE_CTX[_c][1], _lo, _hi),
                                   outside='values longer than 3 symbols', stubs='cook() runs untraced on the per-path concrete source'))
+
+
+# ---------------------------------------------------------------- wave 4: work done by cook() as a function of nesting depth / repetition
+import sys as _sys      # noqa: E402
+
+NEST_OPEN = {
+    'dtml': ['<dtml-if a>', '<dtml-in s>', '<dtml-with w>', '<dtml-let x=y>', '<dtml-try>', '<dtml-unless u>'],
+    'ssi': ['<!--#if a-->', '<!--#in s-->', '<!--#with w-->', '<!--#let x=y-->', '<!--#try-->', '<!--#unless u-->'],
+    'epfs': ['%(if a)[', '%(in s)[', '%(with w)[', '%(let x=y)[', '%(try)[', '%(unless u)['],
+}
+NEST_CLOSE = {
+    'dtml': ['</dtml-if>', '</dtml-in>', '</dtml-with>', '</dtml-let>', '<dtml-except>e</dtml-try>', '</dtml-unless>'],
+    'ssi': ['<!--#/if-->', '<!--#/in-->', '<!--#/with-->', '<!--#/let-->', '<!--#except-->e<!--#/try-->', '<!--#/unless-->'],
+    'epfs': ['%(if)]', '%(in)]', '%(with)]', '%(let)]', '%(except)[e%(try)]', '%(unless)]'],
+}
+
+
+def cook_calls(cls, src):
+    """number of Python function calls made inside the package while compiling src (a deterministic measure of work)"""
+    n = [0]
+
+    def prof(frame, event, arg):
+        if event == 'call' and '/DocumentTemplate/' in frame.f_code.co_filename:
+            n[0] += 1
+    t = cls(src)
+    _sys.setprofile(prof)
+    try:
+        t.cook()
+    finally:
+        _sys.setprofile(None)
+    return n[0]
+
+
+DMAX = tier(18, 26)
+
+
+def make_nest_work(syn):
+    cls = String if syn == 'epfs' else HTML
+
+    def ob(d: int, rot: int, wide: bool) -> bool:
+        """compile work grows polynomially: for nesting depth d (block kinds rotating from a selected start) the number of calls made
+        while cooking stays below a quadratic bound; doubling work per level (re-parsing nested sections) exceeds it long before d = 18.
+        wide: the same number of blocks side by side instead of nested (work linear in the count)"""
+        dd, r, w = pick(d, DMAX) + 1, pick(rot, 6), bool(wide)
+        with NoTracing():
+            ops = [NEST_OPEN[syn][(r + i) % 6] for i in range(dd)]
+            cls_ = [NEST_CLOSE[syn][(r + i) % 6] for i in range(dd)]
+            if w:
+                src = ''.join(o + 'x' + c for o, c in zip(ops, cls_))
+            else:
+                src = ''.join(o + 't' for o in ops) + 'core' + ''.join(reversed(cls_))
+            calls = cook_calls(cls, src)
+            bound = 40 * (dd + 1) * (dd + 1) + 500
+            if calls > bound:
+                LAST['info'] = 'cook() of %d %s blocks (%s syntax) made %d calls inside the package, bound %d' % (dd, 'adjacent' if w else 'nested', syn, calls, bound)
+                return False
+            return True
+    ob.__name__ = 'ob_nest_work_' + syn
+    return ob
+
+
+for _syn in ('dtml', 'ssi', 'epfs'):
+    OBLIGATIONS.append(Ob('work_nesting_' + _syn, make_nest_work(_syn), ['0 <= d < %d' % DMAX, '0 <= rot < 6'], timeout=tier(250, 900), path_timeout=120,
+                          data='-', selectors='nesting depth / block count 1..%d, rotation of six block kinds, nested or adjacent; %s syntax; deterministic work counter (calls inside the package during cook) against 40(d+1)^2+500' % (DMAX, _syn),
+                          outside='depths beyond %d (RecursionError near 300-500 levels is outside every bound)' % DMAX,
+                          stubs='cook() runs untraced once the shape is fixed on the path; sys.setprofile counts calls'))
